@@ -187,17 +187,9 @@ func vtextTo(sb *strings.Builder, v interface{}) {
 		fmt.Fprintf(sb, "i%d", int(x))
 	case float32:
 		// what msgpack's normalisation makes of it on the other side: the float64 with the same value
-		if x != x {
-			sb.WriteString("D7ff8000000000000")
-		} else {
-			fmt.Fprintf(sb, "D%016x", math.Float64bits(float64(x)))
-		}
+		fmt.Fprintf(sb, "D%016x", math.Float64bits(float64(x)))
 	case float64:
-		if x != x {
-			sb.WriteString("D7ff8000000000000") // one canonical NaN (payload bits are not preserved by conversions)
-		} else {
-			fmt.Fprintf(sb, "D%016x", math.Float64bits(x))
-		}
+		fmt.Fprintf(sb, "D%016x", math.Float64bits(x))
 	case string:
 		sb.WriteString("s" + hex.EncodeToString([]byte(x)))
 	case *string:
